@@ -5,7 +5,9 @@ from props.regcommon import RB, entries
 ID = "C01"
 THEOREMS = [("FlatModel.Props.C01", "FC.C01.roundtrip"), ("FlatModel.Props.C01", "FC.C01.refused"),
             ("FlatModel.Props.C01", "FC.reachable_inv")]
-LEAN_TARGETS = ["FlatModel.Generated.Covered"]
+THEOREMS += [("FlatModel.Props.Universe", t) for t in ("FC.Universe.lawful", "FC.Universe.lawfulDense", "FC.Universe.C01_every_composition", "FC.Universe.C01_reachable", "FC.Universe.consec_collapse_unlawful")]
+THEOREMS += [("FlatModel.Props.UniverseOps", "FC.Universe.C01_reach_every_composition")]
+LEAN_TARGETS = ["FlatModel.Generated.Covered", "FlatModel.Generated.CoveredUniverse"]
 PROFILES = {"quick": ["checked", "wrapping"], "thorough": ["checked", "wrapping"], "search": ["checked", "wrapping"]}
 RULE = ("per catalogue entry (and per FlatStack over it): scripts of 1..N pushes of type-directed values in random input forms, "
         "each read back at once through index, and for slice/columns items through len/is_empty/get/iter/into_owned in both "
